@@ -122,3 +122,28 @@ func ZZ_C18_emsaPSSEncode() {
 	// and the verifier accepts what the encoder produced
 	zzAssert(emsaPSSVerify(mHash, em, emBits, sLen, &zzHash{}) == nil, "encoded message verifies")
 }
+
+// salt length given as rsa.PSSSaltLengthAuto (0) - what the zero-salt variants (SaltLength 0) pass:
+// crypto/rsa then accepts an EM iff it is consistent for SOME salt length 0..emLen-hLen-2 (the
+// position of the 0x01 delimiter decides which), including the maximal salt with an empty padding
+// string.  Reference = disjunction of §9.1.2 over every salt length.
+//
+//zz: prop=C18 tier=quick backend=bv timeout=600
+func ZZ_C18_emsaPSSVerify_salt_auto() {
+	bits := []int{535}
+	if zzThorough() {
+		bits = append(bits, 536, 537)
+	}
+	emBits := zzPick("emBits", bits...)
+	emLen := (emBits + 7) / 8
+	em := make([]byte, emLen)
+	zzFill("em", em)
+	mHash := make([]byte, 32)
+	zzFill("mHash", mHash)
+	var any []bool
+	for s := 0; s <= emLen-32-2; s++ {
+		any = append(any, zzPSSVerifyRef(mHash, append([]byte{}, em...), emBits, s))
+	}
+	err := emsaPSSVerify(mHash, em, emBits, 0, &zzHash{})
+	zzAssert(zzIff(err == nil, zzOr(any...)), "PSSSaltLengthAuto accepts exactly the EMs that are consistent for some salt length (0 .. emLen-hLen-2)")
+}
